@@ -6,6 +6,7 @@ import Lean.Data.Json
 import NostrRelay.Model.RateLimiter
 import NostrRelay.Model.Notifier
 import NostrRelay.Model.KV
+import NostrRelay.Model.SQL
 
 open Lean
 
@@ -108,10 +109,32 @@ def defaultLimit (j : Json) : Option Nat := (optField j "default_limit").map fun
 
 end KVD
 
+/-! ### SQL -/
+namespace SQLD
+open NostrRelay NostrRelay.KV NostrRelay.SQL
+
+def parsePre (j : Json) : PreOutcome :=
+  match j with
+  | Json.str "raises" => .raises
+  | Json.str _ => .noVictim
+  | _ => match (j.getObjValAs? String "victim").toOption with
+    | some h => .victim (fromHex h)
+    | none => .noVictim
+
+def dump (s : State) : Json :=
+  let evs := (s.events.map fun e => toHex e.id).toArray.qsort (· < ·)
+  let tgs := (s.tags.map fun t => toHex t.id ++ "|" ++ toHex t.name ++ "|" ++ toHex t.value).toArray.qsort (· < ·)
+  Json.mkObj [("events", Json.arr (evs.map Json.str)), ("tags", Json.arr (tgs.map Json.str))]
+
+def parseFilters (j : Json) : List Filter := (getArr j "filters").toList.map KVD.parseFilter
+
+end SQLD
+
 structure St where
   rlCfg : NostrRelay.RateLimiter.Config := {}
   rl : NostrRelay.RateLimiter.State := {}
   kv : NostrRelay.KV.Store := NostrRelay.KV.init
+  sql : NostrRelay.SQL.State := {}
 
 def step (st : St) (j : Json) : St × Json :=
   match getStr j "op" with
@@ -147,7 +170,41 @@ def step (st : St) (j : Json) : St × Json :=
       let out := NostrRelay.KV.executePlan st.kv p
       (st, Json.mkObj [("ids", jHexList out), ("all", jHexList all), ("unordered", Json.bool p.unordered),
         ("limit", KVD.optNat p.limit)])
+  | "kv.spec" =>
+    let f := KVD.parseFilter (j.getObjVal? "filter" |>.toOption.getD Json.null)
+    let evs := NostrRelay.KV.storedEvents st.kv
+    (st, Json.mkObj [("strict", jHexList ((evs.filter (NostrRelay.KV.matchesSpec true f)).map (·.id))),
+                     ("incl", jHexList ((evs.filter (NostrRelay.KV.matchesSpec false f)).map (·.id))),
+                     ("ts", Json.mkObj (evs.map fun e => (toHex e.id, Json.num (JsonNumber.fromInt e.createdAt))))])
   | "kv.gc" => (st, jHexList (NostrRelay.KV.gcCollect st.kv (getInt j "now").toNat))
+  | "sql.reset" => ({ st with sql := {} }, Json.str "ok")
+  | "sql.add" =>
+    let e := KVD.parseEvent (j.getObjVal? "ev" |>.toOption.getD Json.null)
+    let preJ := j.getObjVal? "pre" |>.toOption.getD Json.null
+    if preJ == Json.str "anyraise" then
+      -- the implementation raised (state rolled back): is there an allowed pre_save outcome under
+      -- which the model raises too?
+      let outs := NostrRelay.SQL.preSaveOutcomes st.sql e
+      let can := outs.any fun o => match NostrRelay.SQL.addEvent st.sql e o with | .raises => true | _ => false
+      (st, Json.str (if can then "raises" else "no-raise-possible"))
+    else
+    let pre := SQLD.parsePre preJ
+    match NostrRelay.SQL.addEvent st.sql e pre with
+    | .ok s' ch => ({ st with sql := s' }, Json.str (if ch then "ok:true" else "ok:false"))
+    | .raises => (st, Json.str "raises")
+    | .illegal => (st, Json.mkObj [("illegal", Json.arr ((NostrRelay.SQL.preSaveOutcomes st.sql e).map fun o =>
+        match o with | .noVictim => Json.str "none" | .raises => Json.str "raises" | .victim i => Json.str (toHex i)).toArray)])
+  | "sql.dump" => (st, SQLD.dump st.sql)
+  | "sql.gc" => ({ st with sql := NostrRelay.SQL.gcSql st.sql (getInt j "now").toNat }, Json.str "ok")
+  | "sql.query" =>
+    let fs := SQLD.parseFilters j
+    let rows := NostrRelay.SQL.matchingRows st.sql fs
+    let lim := NostrRelay.SQL.effectiveLimit fs (getInt j "default_limit").toNat (getInt j "max_limit").toNat
+    let strict := st.sql.events.filter fun e => fs.any fun f => NostrRelay.KV.matchesSpec true f e
+    let incl := st.sql.events.filter fun e => fs.any fun f => NostrRelay.KV.matchesSpec false f e
+    (st, Json.mkObj [("all", jHexList (rows.map (·.id))), ("limit", Json.num (JsonNumber.fromNat lim)),
+      ("strict", jHexList (strict.map (·.id))), ("incl", jHexList (incl.map (·.id))),
+      ("ts", Json.mkObj (st.sql.events.map fun e => (toHex e.id, Json.num (JsonNumber.fromInt e.createdAt))))])
   | "nt.read" => (st, jHexList (NostrRelay.Notifier.readLoop 32 (by decide) [] (hexList j "chunks")))
   | "nt.readOld" => (st, jHexList (NostrRelay.Notifier.readLoopOld 32 (by decide) [] (hexList j "chunks")))
   | op => (st, Json.mkObj [("error", Json.str ("unknown op " ++ op))])
